@@ -14,7 +14,7 @@
    (edges_to, edge_index, edge_to_index) are not represented: they are derived data which the
    store keeps coherent; the model recomputes what they answer by scanning the buckets.
    The model emits hash *preimages* (the exact byte stream fed to the blake3 hasher). *)
-From Coq Require Import List NArith Lia Bool.
+From Coq Require Import List NArith Lia Bool Permutation.
 From Echo Require Import Base.FinMap Base.Order Base.Bytes.
 Import ListNotations.
 Open Scope N_scope.
@@ -49,6 +49,8 @@ Record state := mkState {
 }.
 
 Definition empty_state : state := mkState [] [].
+
+Definition is_some {A} (o : option A) : bool := match o with Some _ => true | None => false end.
 
 Definition get_store (s : state) (w : N) : option store := find N.compare w (s_stores s).
 Definition get_inst (s : state) (w : N) : option inst := find N.compare w (s_insts s).
@@ -492,6 +494,46 @@ Inductive ReachW (s : state) (r : nkey) : N -> Prop :=
     Reach s r k -> get_store s (fst k) = Some st -> In e (bucket_of st (snd k)) ->
     find N.compare (e_id e) (st_eatt st) = Some (Descend c) -> ReachW s r c.
 
+(* Invariants every GraphStore / WarpState operation keeps (boolean, so they can be evaluated):
+   maps strictly sorted, no empty bucket, `edge.from` = bucket key, edge ids unique in a store,
+   stores and instance metadata present together. *)
+Fixpoint nodupb (l : list N) : bool :=
+  match l with [] => true | x :: r => negb (existsb (N.eqb x) r) && nodupb r end.
+
+Definition wf_store (st : store) : bool :=
+  sortedb N.compare (st_nodes st) && sortedb N.compare (st_from st) &&
+  sortedb N.compare (st_natt st) && sortedb N.compare (st_eatt st) &&
+  forallb (fun fb => negb (match snd fb with [] => true | _ => false end) &&
+                     forallb (fun e => e_from e =? fst fb) (snd fb)) (st_from st) &&
+  nodupb (map e_id (all_edges st)).
+
+Definition wf_state (s : state) : bool :=
+  sortedb N.compare (s_stores s) && sortedb N.compare (s_insts s) &&
+  forallb (fun wst => wf_store (snd wst)) (s_stores s) &&
+  forallb (fun wi => is_some (get_store s (fst wi))) (s_insts s) &&
+  forallb (fun wst => is_some (get_inst s (fst wst))) (s_stores s).
+
+(* Two states agree on what is reachable from r in the first one: same records, attachments and
+   instance metadata at every reachable key; the outgoing edges of a reachable node are the same
+   *set* (any bucket order).  Nothing is required of unreachable nodes, edges, attachments or
+   instances. *)
+Definition opt_rel {A} (R : A -> A -> Prop) (a b : option A) : Prop :=
+  match a, b with Some x, Some y => R x y | None, None => True | _, _ => False end.
+
+Definition same_at (s1 s2 : state) (k : nkey) : Prop :=
+  opt_rel (fun a b =>
+    find N.compare (snd k) (st_nodes a) = find N.compare (snd k) (st_nodes b) /\
+    find N.compare (snd k) (st_natt a) = find N.compare (snd k) (st_natt b) /\
+    opt_rel (@Permutation edge) (find N.compare (snd k) (st_from a)) (find N.compare (snd k) (st_from b)) /\
+    (forall e, In e (bucket_of a (snd k)) ->
+               find N.compare (e_id e) (st_eatt a) = find N.compare (e_id e) (st_eatt b)))
+    (get_store s1 (fst k)) (get_store s2 (fst k)).
+
+Definition agree_on_reachable (s1 s2 : state) (r : nkey) : Prop :=
+  (forall k, Reach s1 r k -> same_at s1 s2 k) /\
+  (forall w, ReachW s1 r w ->
+             get_inst s1 w = get_inst s2 w /\ is_some (get_store s1 w) = is_some (get_store s2 w)).
+
 (* ------------------------------------------------------------------ *)
 (* Byte encodings fed to the hasher *)
 
@@ -787,8 +829,6 @@ Definition f2_root : nkey := (7, 9).
 
 (* ------------------------------------------------------------------ *)
 (* What the harness observes for one case (evaluated by vm_compute in the correspondence). *)
-
-Definition is_some {A} (o : option A) : bool := match o with Some _ => true | None => false end.
 
 (* a reachable warp without instance metadata/store: `debug_assert!(false, ...)` in snapshot.rs *)
 Definition dangling (s : state) (r : nkey) : bool :=
